@@ -77,23 +77,28 @@ def trial(case):  # noqa: C901, PLR0912, PLR0915
     attached = isinstance(getattr(st, "_checkpoint_queue", None), queue.Queue)
     if attached:
         class HQ(queue.Queue):
-            def put(self, item, block=True, timeout=None):
-                # targeted pause plan: park one producer between the failed-check and the enqueue until the
-                # consumer has failed and finished draining (an interleaving a preemption could create)
-                if case.get("hold_put") and threading.current_thread().name == "c05-p1" and not held[0]:
-                    held[0] = True
-                    t_end = time.monotonic() + 3
-                    while consumer_ref[0].is_alive() and time.monotonic() < t_end:
-                        time.sleep(0.002)
-                    achieved[0] = not consumer_ref[0].is_alive()
-                return super().put(item, block, timeout)
-
             def _put(self, item):  # runs under the queue's own mutex: exact hand-over order
                 u = item.operation_update
                 handover.append(u.operation_id if u is not None else None)
                 super()._put(item)
 
         st._checkpoint_queue = HQ()
+    import aws_durable_execution_sdk_python.state as m_state
+
+    orig_qop = getattr(m_state, "QueuedOperation", None)
+    if case.get("hold_put") and orig_qop is not None:
+        # targeted pause plan: park producer p1 between the failed-check and the enqueue (outside any lock: the wrapper
+        # object is built there) until the consumer has failed and finished draining - an interleaving a preemption could create
+        def parked_qop(*a, **kw):
+            if threading.current_thread().name == "c05-p1" and not held[0]:
+                held[0] = True
+                t_end = time.monotonic() + 3
+                while consumer_ref[0].is_alive() and time.monotonic() < t_end:
+                    time.sleep(0.002)
+                achieved[0] = not consumer_ref[0].is_alive()
+            return orig_qop(*a, **kw)
+
+        m_state.QueuedOperation = parked_qop
     consumer = threading.Thread(target=st.checkpoint_batches_forever, name="c05-consumer", daemon=True)
     consumer_ref[0] = consumer
     consumer.start()
@@ -152,6 +157,8 @@ def trial(case):  # noqa: C901, PLR0912, PLR0915
             verdict = "inconclusive"
     st.stop_checkpointing()
     consumer.join(timeout=3)
+    if orig_qop is not None:
+        m_state.QueuedOperation = orig_qop
     delivered = list(client.delivered)
     hand = [h for h in handover if h is not None]
     # only judge items handed over before the last successful synchronous return of each producer (async tail may be abandoned)
